@@ -71,12 +71,13 @@ HELPERS = [
                "lns(final(self)).len() == code(final(self)).len()", "lns(final(self)).subrange(0, lns(old(self)).len() as int) == lns(old(self))",
                "forall|i: int| lns(old(self)).len() <= i < lns(final(self)).len() ==> lns(final(self))[i] == line",
                "forall|i: int| 0 <= i < lns(old(self)).len() ==> lns(final(self))[i] == lns(old(self))[i]",
+               "forall|a: int| 0 <= a <= pos ==> #[trigger] seg(final(self), a, pos as int) == seg(old(self), a, pos as int)",
                "sc(final(self)).last_ins.opcode == op", "sc(final(self)).last_ins.position == pos", "sc(final(self)).prev_ins == sc(old(self)).last_ins",
                "others_same(old(self), final(self))", "scope_meta_same(old(self), final(self))",
                "fits_all(op, operands@) || final(self).encoding_error is Some",
                "fresh(&sc(final(self)))", "ext(old(self), final(self))", "gen_s(old(self), final(self))", "starts(code(final(self))) == starts(code(old(self))).push(pos as int)",
                "is_start(final(self), pos as int)", "op_at(code(final(self)), pos as int) == op", "code(final(self)).len() == code(old(self)).len() + ilen(op)"],
-      epilogue="assert(lns(self).subrange(0, lns(old(self)).len() as int) =~= lns(old(self))); assert forall|i: int| 0 <= i < lns(old(self)).len() implies lns(self)[i] == lns(old(self))[i] by { assert(lns(self).subrange(0, lns(old(self)).len() as int)[i] == lns(self)[i]); } lemma_emit(old(self), self, op, operands@); lemma_op_of_byte(op); assert(starts(code(self))[starts(code(old(self))).len() as int] == verif_ret);", props=["C01", "C08", "C13", "C14"]),
+      epilogue="assert(lns(self).subrange(0, lns(old(self)).len() as int) =~= lns(old(self))); assert forall|i: int| 0 <= i < lns(old(self)).len() implies lns(self)[i] == lns(old(self))[i] by { assert(lns(self).subrange(0, lns(old(self)).len() as int)[i] == lns(self)[i]); } lemma_emit(old(self), self, op, operands@); lemma_op_of_byte(op); assert forall|a: int| 0 <= a <= verif_ret implies #[trigger] seg(self, a, verif_ret as int) == seg(old(self), a, verif_ret as int) by { assert(seg(self, a, verif_ret as int) =~= seg(old(self), a, verif_ret as int)); } assert(starts(code(self))[starts(code(old(self))).len() as int] == verif_ret);", props=["C01", "C08", "C13", "C14"]),
     m("is_last_instruction", ret="r", requires=["self.scope_index < self.scopes@.len()"], ensures=["r == (code(self).len() > 0 && sc(self).last_ins.opcode == opcode)"]),
     m("replace_instruction", requires=["old(self).scope_index < old(self).scopes@.len()", "pos + new_instruction@.len() <= code(old(self)).len()"],
       ensures=["rest_same(old(self), final(self))", "lns(final(self)) == lns(old(self))",
@@ -128,6 +129,7 @@ AST = [t for t in AST_TYPES if t["path"] not in ("Precedence", "Parser")]
 NODEC = ["#[verifier::exec_allows_no_decreases_clause]"]
 GEN = ["r is Ok ==> gen(old(self), final(self))"]
 GEN_S = ["r is Ok ==> gen_s(old(self), final(self))"]
+REV = ' proof { lemma_strlits(); reveal_strlit("&&"); reveal_strlit("||"); reveal_strlit("+"); reveal_strlit("-"); reveal_strlit("*"); reveal_strlit("/"); reveal_strlit("%"); reveal_strlit("=="); reveal_strlit("!="); reveal_strlit(">"); reveal_strlit("<"); reveal_strlit(">="); reveal_strlit("<="); reveal_strlit("&"); reveal_strlit("|"); reveal_strlit("^"); reveal_strlit("<<"); reveal_strlit(">>"); reveal_strlit("!"); reveal_strlit("~"); reveal_strlit("$"); } '
 BCAST = " broadcast use lemma_ext_trans, lemma_gen_trans, lemma_gen_s_trans, lemma_start_kept; "
 REFL = " proof { lemma_gen_refl(self, self); } "
 
@@ -173,7 +175,8 @@ COMPILE = [
     m("add_constant", ret="r", requires=PRE, ensures=["gen_s(old(self), final(self))", "final(self).scopes == old(self).scopes"], epilogue="lemma_gen_refl(old(self), self);"),
     m("load_symbol", requires=PRE, ensures=["gen_s(old(self), final(self))", "code(final(self)).len() > code(old(self)).len()"], prologue=BCAST),
     m("save_symbol", ret="r", requires=PRE, ensures=GEN_S + ["r is Ok ==> code(final(self)).len() > code(old(self)).len()"], prologue=BCAST),
-    m("compile_infix_expr", ret="r", requires=PRE, ensures=GEN_S + ["r is Ok ==> code(final(self)).len() == code(old(self)).len() + 1"], prologue=BCAST),
+    m("compile_infix_expr", ret="r", requires=PRE, ensures=GEN_S + ["r is Ok ==> code(final(self)).len() == code(old(self)).len() + 1", "r is Ok ==> last_line_is(old(self), final(self), line)",
+                                                                     "r is Ok ==> sc(final(self)).last_ins.opcode == infix_opcode(operator@) && infix_opcode(operator@) != Opcode::Invalid"], prologue=BCAST + REV, props=["C13", "C09", "C01", "C08"]),
     m("compile_block_statement", ret="r", requires=PRE, ensures=GEN_S, prologue=BCAST + REFL, attrs=NODEC, rewrites=[FORSTMT],
       loops={0: dict(invariant=["verif_k <= verif_v@.len()", "ext0(old(self), self)", "sc(self).scope_depth == sc(old(self)).scope_depth + 1", "tail_ok(old(self), self)",
                                 "code(self).len() > code(old(self)).len() ==> fresh(&sc(self))"],
@@ -208,7 +211,18 @@ COMPILE = [
                                 "cwf(&verif_sb)", "code(&verif_sb).len() > 0", "sc(&verif_sb).last_ins.position == pos", "sc(&verif_sb).last_ins.opcode == Opcode::Jump", "fresh(&sc(&verif_sb))", "gen_s(old(self), &verif_sb)", "pos >= code(old(self)).len()"],
                      decreases="verif_k", body_prologue=BCAST),
              3: dict(invariant=["gen_s(old(self), self)", "*self == *old(self)"], body_prologue=BCAST)}),
-    m("compile_expression", ret="r", requires=PRE, ensures=GEN + ["r is Ok ==> emitted_by(expr, seg(final(self), code(old(self)).len() as int, code(final(self)).len() as int))"], prologue=BCAST + REFL, attrs=NODEC,
+    m("compile_expression", ret="r", requires=PRE, props=["C06", "C13", "C01", "C08"],
+      ensures=GEN + ["r is Ok ==> emitted_by(expr, seg(final(self), code(old(self)).len() as int, code(final(self)).len() as int))",
+                     # C06: the logical operators are compiled by the short-circuit generators, on their own operands, in source order
+                     "r is Ok ==> (expr matches Expression::Binary(b) ==> (b.operator@ == \"&&\"@ ==> and_shape(old(self), final(self), *b.left, *b.right, b.token.line)))",
+                     "r is Ok ==> (expr matches Expression::Binary(b) ==> (b.operator@ == \"||\"@ ==> or_shape(old(self), final(self), *b.left, *b.right, b.token.line)))",
+                     "r is Ok ==> (expr matches Expression::If(e) ==> if_shape(old(self), final(self), *e.condition))",
+                     # C13: the instruction that can fail at run time carries the line of the node's own token
+                     "r is Ok && op_line(expr) is Some ==> last_line_is(old(self), final(self), op_line(expr)->0)",
+                     "r is Ok ==> (expr matches Expression::Unary(u) ==> sc(final(self)).last_ins.opcode == unary_opcode(u.operator@) && unary_opcode(u.operator@) != Opcode::Invalid && emitted_by(*u.right, seg(final(self), code(old(self)).len() as int, sc(final(self)).last_ins.position as int)))",
+                     "r is Ok ==> (expr matches Expression::Binary(b) ==> (!is_logical(b.operator@) ==> sc(final(self)).last_ins.opcode == infix_opcode(b.operator@) && infix_opcode(b.operator@) != Opcode::Invalid))",
+                     "r is Ok ==> (expr matches Expression::Call(c) ==> sc(final(self)).last_ins.opcode == Opcode::Call)"],
+      prologue=BCAST + REFL + REV, attrs=NODEC,
       epilogue="assume(emitted_by(expr, seg(self, code(old(self)).len() as int, code(self).len() as int)));",
       loops={0: dict(invariant=["gen(old(self), self)"], body_prologue=BCAST), 1: dict(invariant=["gen(old(self), self)"], body_prologue=BCAST), 2: dict(invariant=["gen(old(self), self)"], body_prologue=BCAST)}),
     m("compile_if_expression", ret="r", requires=PRE, ensures=GEN + ["r is Ok ==> if_shape(old(self), final(self), *expr.condition)"], prologue=BCAST, attrs=NODEC + ["#[verifier::rlimit(400)]"], props=["C06", "C01", "C08"],
@@ -217,7 +231,8 @@ COMPILE = [
                 dict(rule="R9", re=r"(self\.patch_jump\(jump_if_false_pos\);)", to=r"\1 let ghost verif_s7 = *self;", expect=1, strict=True, why="ghost snapshot"),
                 dict(rule="R9", re=r"(self\.patch_jump\(jump_pos\);)", to=r"let ghost verif_s8 = *self; \1 proof { lemma_if_shape(old(self), &verif_s1, &verif_sq, &verif_s7, &verif_s8, self, *expr.condition); }", expect=1, strict=True, why="proof hint: the shape of if")]),
     m("compile_identifier", ret="r", requires=PRE, ensures=GEN, prologue=BCAST),
-    m("compile_index_expression", ret="r", requires=PRE, ensures=GEN, prologue=BCAST, attrs=NODEC),
+    m("compile_index_expression", ret="r", requires=PRE, ensures=GEN + ["r is Ok ==> last_line_is(old(self), final(self), expr.token.line)",
+                                                                       "r is Ok ==> sc(final(self)).last_ins.opcode == (if expr.context.access is Get { Opcode::GetIndex } else { Opcode::SetIndex })"], prologue=BCAST, attrs=NODEC, props=["C13", "C01", "C08"]),
     m("compile_function_literal", ret="r", requires=PRE, ensures=GEN, prologue=BCAST, attrs=NODEC,
       rewrites=[dict(rule="R9", re=r"(self\.enter_scope\(\);)", to=r"\1 let ghost verif_e = *self;", expect=1, why="ghost snapshot of the compiler after enter_scope"),
                 dict(rule="R9", re=r"(let num_locals = )", to=r"let ghost verif_b = *self; \1", expect=1, why="ghost snapshot of the compiler at the end of the function body"),
@@ -238,7 +253,8 @@ COMPILE = [
                 dict(rule="R9", re=r"(self\.compile_expression\(right\)\?;)", to=r"\1 let ghost verif_s6 = *self;", expect=1, strict=True, why="ghost snapshot"),
                 dict(rule="R9", re=r"(self\.patch_jump\(end_pos\);)", to=r"\1 proof { lemma_or_shape(old(self), &verif_s1, &verif_s3, &verif_s4, &verif_s6, self, left, right, line); }", expect=1, strict=True, why="proof hint: the shape of a || b")]),
     m("compile_dot_expression", ret="r", requires=PRE, ensures=GEN, prologue=BCAST, attrs=NODEC),
-    m("compile_prop_expression", ret="r", requires=PRE, ensures=GEN, prologue=BCAST),
+    m("compile_prop_expression", ret="r", requires=PRE, ensures=GEN + ["r is Ok ==> last_line_is(old(self), final(self), expr.token.line)",
+                                                                      "r is Ok ==> sc(final(self)).last_ins.opcode == (if expr.context.access is Get { Opcode::GetProp } else { Opcode::SetProp })"], prologue=BCAST, props=["C13", "C01", "C08"]),
     m("enter_scope", requires=PRE,
       ensures=["cwf(final(self))", "final(self).scope_index == old(self).scope_index + 1", "final(self).scopes@.len() == old(self).scopes@.len() + 1",
                "forall|j: int| 0 <= j < old(self).scopes@.len() ==> final(self).scopes@[j] == old(self).scopes@[j]",
